@@ -20,7 +20,7 @@ OPS = ["len", "badlen", "idx", "iter", "concat", "eq", "astype", "vla"]
 FLOOR_TAGS = ["op:" + o for o in OPS] + ["idx:int", "idx:slice", "idx:list", "idx:mask", "idx:boollist", "idx:emptylist", "len:0", "fields:1", "fields:4",
                                          "astype:reordered", "astype:same-order", "eq:same", "eq:cell-differs", "eq:length-differs", "field:2d", "field:float", "badlen:first", "badlen:other"]
 FLOOR_MONITORS = ["c18:compare", "c18:aligned"]
-N_RANDOM = {"quick": 8000, "thorough": 200000}
+N_RANDOM = {"quick": 32000, "thorough": 200000}
 _CLS = {}
 
 
